@@ -1140,7 +1140,31 @@ def gen_modify_text(rng):
     return "".join(rng.choice(atoms) for _ in range(rng.range(0, 5)))
 
 
-def gen_generate_line(rng):
+def absolutize_expansion(lines, cur_origin_text):
+    """the expansion lines `owner ttl/class type rhs` with owner and (for name types) rhs written as absolute names"""
+    out = []
+    for ln in lines:
+        parts = ln.split()
+        owner, rhs, mid = parts[0], parts[-1], parts[1:-1]
+        ty = mid[-1].upper()
+
+        def ab(x):
+            if x == "@":
+                return cur_origin_text
+            if x.endswith("."):
+                return x
+            if "@" in x or "\\" in x:
+                return None
+            return x + "." + cur_origin_text
+        o = ab(owner)
+        r = ab(rhs) if ty in ("CNAME", "NS", "PTR") else rhs
+        if o is None or r is None:
+            return None
+        out.append(" ".join([o] + mid + [r]))
+    return out
+
+
+def gen_generate_line(rng, names=False):
     a = rng.below(12)
     b = a + rng.below(6)
     rngs = f"{a}-{b}" + (f"/{rng.choice([1, 2, 3])}" if rng.chance(1, 3) else "")
@@ -1148,11 +1172,12 @@ def gen_generate_line(rng):
                       "m${-7,4,d}", "k${-20,5,x}", "j${-3,3,o}", "q${-9,6,N}.z"])
     ttl = rng.choice(["", "300 ", "1h "])
     cls = rng.choice(["", "IN ", "in "])
-    kind = rng.below(4)
+    kind = rng.choice([1, 1, 1, 0]) if names else rng.below(4)
     if kind == 0:
         ty, rhs = "A", rng.choice(["10.0.0.$", "10.0.${0,1,d}.1", "10.0.0.${10}", "1.2.3.4", "10.0.0.${0,3,d}"])
     elif kind == 1:
-        ty, rhs = rng.choice(["CNAME", "NS", "PTR"]), rng.choice(["t$", "t$.example.", "x${0,2,x}.other.", "@", "$.@"])
+        ty, rhs = rng.choice(["CNAME", "NS", "PTR"]), rng.choice(["t$", "host$", "t$.example.", "x${0,2,x}.other.", "@", "$.@", "h${0,3,d}.deep",
+                                                              "n$.example.com.", "w$.sub.example.org.", "w$.hosts.example."])
     elif kind == 2:
         ty, rhs = "TXT", rng.choice(["v$", "a${1,2,d}b", "$$"])
     else:
@@ -1306,26 +1331,51 @@ def generate(ctx: Ctx, scale: int, rng, thorough=False):
                   "malformed_c04": True}
             ctx.case(("read", tm, rel), sample=None)
             eval_case(ctx, c3)
-    for _ in range(n(150)):
+    for gi in range(n(220)):
         origin = rng.choice(ORIGINS[:3])
-        rel = rng.chance(1, 2)
+        rel = rng.chance(2, 3)
         pre = f"$TTL 3600\n@ IN SOA ns1 hostmaster 1 2 3 4 5\n@ NS ns1\n" if rng.chance(5, 6) else "@ 5 IN NS ns1\n"
-        gl, _ = gen_generate_line(rng)
-        ta = pre + gl + "\n"
+        # $ORIGIN switches before the $GENERATE: a sub-origin, a sibling (out of zone), back to the zone origin, none
+        osw = rng.choice(["none", "sub", "sub", "sub2", "sibling", "back", "subrel"])
+        o_txt = name_text(origin)
+        if osw == "sub":
+            pre += f"$ORIGIN hosts.{o_txt}\n"
+        elif osw == "sub2":
+            pre += f"$ORIGIN a.{o_txt}\n$ORIGIN b.a.{o_txt}\n"
+        elif osw == "sibling":
+            pre += "$ORIGIN sibling.invalid.\n"
+        elif osw == "back":
+            pre += f"$ORIGIN deep.hosts.{o_txt}\n$ORIGIN {o_txt}\n"
+        elif osw == "subrel":
+            pre += f"$ORIGIN {o_txt}\n$ORIGIN x\n"     # a relative $ORIGIN argument, taken under the current origin
+        gl, _ = gen_generate_line(rng, names=(gi % 2 == 0))
+        post = rng.choice(["", "", f"after 60 IN PTR tail\n", f"$ORIGIN {o_txt}\nlast 60 IN NS ns1\n"])
+        ta = pre + gl + "\n" + post
         try:
             exp = expand_generate(gl, origin)
         except Exception:
             exp = None
         c = {"kind": "read", "origin": hexl(origin), "rel": rel, "chk": False, "text": l1(ta).hex()}
         ctx.case(("gen", ta, rel), sample=c)
+        ctx.count("generate.origin-switch." + osw)
         eval_case(ctx, c)
         if exp is not None:
-            tb = pre + "\n".join(exp) + "\n"
+            tb = pre + "\n".join(exp) + "\n" + post
             la, za = impl_read(origin, rel, False, ta)
             if za is not None:
                 c2 = {"kind": "spell", "what": "generate-vs-expansion", "origin": hexl(origin), "rel": rel, "a": l1(ta).hex(), "b": l1(tb).hex()}
                 ctx.case(("genexp", ta), sample=c2)
                 eval_case(ctx, c2)
+                # $ORIGIN-relative versus absolute: the same expansion with every name written out under the zone origin
+                if osw in ("sub", "sub2", "back", "subrel") and rng.chance(1, 2):
+                    cur = {"sub": "hosts." + o_txt, "sub2": "b.a." + o_txt, "back": o_txt, "subrel": "x." + o_txt}[osw]
+                    abs_lines = absolutize_expansion(exp, cur)
+                    if abs_lines is not None:
+                        tcabs = pre.split("$ORIGIN")[0] + "\n".join(abs_lines) + "\n" + (post.replace("after 60 IN PTR tail", f"after.{cur} 60 IN PTR tail.{cur}") if "$ORIGIN" not in post else f"last.{o_txt} 60 IN NS ns1.{o_txt}\n")
+                        c3 = {"kind": "spell", "what": "generate-vs-absolute-expansion", "origin": hexl(origin), "rel": rel,
+                              "a": l1(ta).hex(), "b": l1(tcabs).hex()}
+                        ctx.case(("genabs", ta), sample=None)
+                        eval_case(ctx, c3)
     # --- zones: write then read
     styles = pairwise(rng.fork(3), KNOBS)
     ctx.extra["pairwise_styles"] = len(styles)
